@@ -153,6 +153,21 @@ def _depth_guard(f, i, _seen={}):
     return True
 
 
+_KNOWN_PTRS = []
+
+
+def _is_new_pointer_local(f, ref):
+    """a pointer-typed local that the unchanged tree does not declare in this function (engine/known_ptr_locals.json)"""
+    if not _KNOWN_PTRS:
+        from . import inline
+        _KNOWN_PTRS.append(inline.load_known_ptrs() or {})
+    t = (ref.get("t") or "").replace(" ", "")
+    if not (t.endswith("*") or t.endswith("*const")):
+        return False
+    from . import inline
+    return ref.get("n") not in set(_KNOWN_PTRS[0].get(inline.strip_targs(f.name), []))
+
+
 def base_local(f, i):
     """the local variable at the root of an object expression like ((T*)(item + 1)) or item or *it"""
     while i is not None and i >= 0:
@@ -160,10 +175,11 @@ def base_local(f, i):
         n = f.nodes[i]
         if n["k"] == "DeclRefExpr":
             rid_ = str(n["ref"].get("id", ""))
-            if n["ref"]["dk"] == "local" and ("@" in rid_ or rid_.startswith("inl-ret")) and _depth_guard(f, i):
-                # a parameter / result of an inlined helper stands for the expression it was bound to
+            if n["ref"]["dk"] == "local" and ("@" in rid_ or rid_.startswith("inl-ret") or _is_new_pointer_local(f, n["ref"])) and _depth_guard(f, i):
+                # a parameter / result of an inlined helper - or a pointer local the tree does not have (`T* const element = (T*)(i + 1)`) -
+                # stands for the expression it was bound to
                 init = q.single_def(f, n["ref"]["id"])
-                if init is not None:
+                if init is not None and base_local(f, init) is not None:
                     i = init
                     continue
             return n["ref"] if n["ref"]["dk"] in ("local", "parm") else None
@@ -256,16 +272,7 @@ def self_assign(prog, chk, rid, classes=("Array", "List", "Map", "MultiMap", "Ha
                 destroy += [d for d, _o in dtor_events(f)]
                 destroy += [i for i, n in enumerate(f.nodes) if n["k"] == "CXXDeleteExpr"]
                 reads = [i for i, n in enumerate(f.nodes) if n["k"] == "DeclRefExpr" and n["ref"]["id"] == other["id"]]
-                guard_edges = []
-                for b in f.blocks.values():
-                    c = b.get("cond")
-                    if c is None or len(b["succ"]) != 2:
-                        continue
-                    t = q.no_casts(f.r(c))
-                    if re.search(r"this (==|!=) &%s\b|&%s (==|!=) this" % (other["n"], other["n"]), t):
-                        eq = "==" in t
-                        # the edge on which this != &other
-                        guard_edges.append((b["id"], b["succ"][1] if eq else b["succ"][0]))
+                guard_edges = fin.alias_guard_edges(f, other["n"])
                 bad = None
                 for d in destroy:
                     dp = f.node_pos(d)
@@ -1239,15 +1246,7 @@ def self_assign_noop(prog, chk, rid, classes=("List", "Map", "MultiMap", "HashMa
         for tn, fs in sorted(class_insts(prog, cls).items()):
             for f in [f for f in fs if f.kind == "copyassign"]:
                 other = f.params[0]
-                guard_edges = []
-                for b in f.blocks.values():
-                    c = b.get("cond")
-                    if c is None or len(b["succ"]) != 2:
-                        continue
-                    t = q.no_casts(f.r(c))
-                    if re.search(r"this (==|!=) &%s\b|&%s (==|!=) this" % (other["n"], other["n"]), t):
-                        eq = "==" in t
-                        guard_edges.append((b["id"], b["succ"][1] if eq else b["succ"][0]))
+                guard_edges = fin.alias_guard_edges(f, other["n"])
                 events = []
                 for i in q.calls(f):
                     n = f.nodes[i]
